@@ -77,7 +77,7 @@ HeaderIs(m, padded) ==
             /\ m.edns = Hdr.edns[2] /\ m.eflags = HdrOpt(Hdr).ttl /\ m.payload = Hdr.edns[4]
             /\ Len(m.options) = n + (IF padded THEN 1 ELSE 0)
             /\ \A i \in 1..n : /\ m.options[i][1] = Hdr.edns[5][i][1]
-                                /\ m.options[i][2] = Fill(Hdr.edns[5][i][2], Hdr.edns[5][i][3])
+                                /\ m.options[i][2] = Hdr.edns[5][i][2]
             /\ padded => /\ m.options[n + 1][1] = 12
                           /\ \A j \in 1..Len(m.options[n + 1][2]) : m.options[n + 1][2][j] = 0
 MessageIs(m, padded) == HeaderIs(m, padded) /\ QuestionIs(m.sections[1]) /\ \A s \in 1..3 : SectionIs(m.sections[s + 1], s)
@@ -89,6 +89,18 @@ TMsg == /\ e.op = "msg" /\ UNCHANGED st
         /\ Check(t, l, "ParsedHeader", HeaderIs(e.parsed, Hdr.pad > 0))
         /\ Check(t, l, "ParsedRecords", MessageIs(e.parsed, Hdr.pad > 0))
         /\ Check(t, l, "ReRenderIdentical", e.wire2 = e.wire)
+        \* to_wire(prepend_length=True): the message length, then the very same message (decoded again)
+        /\ Check(t, l, "PrependLength", /\ Len(e.wirep) = Len(e.wire) + 2
+                                        /\ SubSeq(e.wirep, 1, 2) = U16(Len(e.wire))
+                                        /\ WireIs(SubSeq(e.wirep, 3, Len(e.wirep)), st.id, st.flags, st.qs, st.xs)
+                                        /\ SubSeq(e.wirep, 3, Len(e.wirep)) = e.wire)
+        \* from_wire parameter sweep: one_rr_per_rrset, ignore_trailing (+ trailing octets), question_only
+        /\ Check(t, l, "ParseVariants", HasKey(e, "var") =>
+                 /\ MessageIs(e.var.onerr, Hdr.pad > 0) /\ e.var.wire1 = e.wire
+                 /\ MessageIs(e.var.trail, Hdr.pad > 0)
+                 /\ e.var.qonly.id = Hdr.id /\ e.var.qonly.flags = HdrFlags(Hdr) /\ QuestionIs(e.var.qonly.sections[1])
+                 /\ \A s \in 2..4 : e.var.qonly.sections[s] = <<>>
+                 /\ Len(e.var.wirep2) = Len(e.wire) + 2 /\ SubSeq(e.var.wirep2, 3, Len(e.var.wirep2)) = e.wire)
         /\ Check(t, l, "BuiltMessageIsTheScript", /\ HeaderIs(e.orig, FALSE) /\ QuestionIs(e.orig.sections[1])
                                                    /\ (e.mode = "direct" => MessageIs(e.orig, FALSE)))
         /\ Check(t, l, "ParsedEqualsOriginal", e.eq)
